@@ -113,7 +113,7 @@ def generate(rng, tier):
     for i in range(2 if tier == 'quick' else 8):
         import random as _r
         lines = ['gb.newloop 0 0 0 0 0 1'] + sysgen.scene_lines(_r.Random(rng.randrange(1 << 30)), 0)
-        lines += ['gb.runclose 0 %d' % rng.randrange(1, 4), 'gb.pix 0', 'gb.newloop 1 0 0 0 0 %d' % (i % 2), 'gb.w 1 65344 0', 'gb.frames 1 1',
+        lines += ['gb.runclose 0 %d' % rng.randrange(1, 4), 'gb.pix 0', 'gb.obs 0', 'gb.newloop 1 0 0 0 0 %d' % (i % 2), 'gb.w 1 65344 0', 'gb.frames 1 1',
                   'gb.pix 1', 'gb.obs 1', 'gb.newloop 2 0 0 0 0 1', 'gb.frames 2 1', 'gb.pix 2']
         cases.append(('reuse%d' % i, lines))
     info = dict(input_distribution=dict(roms=len(rl), frames=frames, object_scenes=nscene, sound_cases=nsound),
